@@ -1,4 +1,5 @@
 """Quake 1 / 2 / 3 status family: how the generic property runners drive it."""
+from props import malformed
 
 FAMILY = dict(send_units=1, 
     name="quake", nargs=3, gen="quake", retries=2, port=0, decode_property="C05", entry="quake",
@@ -31,7 +32,7 @@ def c10_build(valid, unit, v, r, new_id):
         elif e == "F":
             faults.append(True)
         elif e == "M":
-            newds.append(b"\xff\xff")
+            newds.append(malformed.CURRENT)
             faults.append(False)
         else:
             newds.append(reply)
